@@ -2,18 +2,22 @@
 From HpoV Require Import Gen.Consts Model.Base Model.Group Model.Onto Model.F32 Model.IC Model.Query
   Model.Dump Model.Script Spec.Sets Run.World.
 
-(* per term: id, all parents, gene / omim / orpha ids, ic bits; then the three record counts *)
-Definition p03 : Type := N * list N * list N * list N * list N * (N * N * N).
-Definition r_id (t : p03) : N := let '(x, _, _, _, _, _) := t in x.
-Definition r_allp (t : p03) : list N := let '(_, x, _, _, _, _) := t in x.
+(* per term: id, all parents, gene / omim / orpha ids, ic bits read through gene() / omim_disease() /
+   orpha_disease(), the same read through get_kind(Gene | Omim | Orpha); then the three record counts *)
+Definition p03 : Type := N * list N * list N * list N * list N * (N * N * N) * (N * N * N).
+Definition r_id (t : p03) : N := let '(x, _, _, _, _, _, _) := t in x.
+Definition r_allp (t : p03) : list N := let '(_, x, _, _, _, _, _) := t in x.
 Definition r_n (k : kind) (t : p03) : N :=
-  let '(_, _, g, m, r, _) := t in Nlen (match k with KGene => g | KOmim => m | KOrpha => r end).
+  let '(_, _, g, m, r, _, _) := t in Nlen (match k with KGene => g | KOmim => m | KOrpha => r end).
 Definition r_ic (k : kind) (t : p03) : N :=
-  let '(_, _, _, _, _, (g, m, r)) := t in match k with KGene => g | KOmim => m | KOrpha => r end.
+  let '(_, _, _, _, _, (g, m, r), _) := t in match k with KGene => g | KOmim => m | KOrpha => r end.
+Definition r_ick (k : kind) (t : p03) : N :=
+  let '(_, _, _, _, _, _, (g, m, r)) := t in match k with KGene => g | KOmim => m | KOrpha => r end.
 
 Definition obs_C03 : Type := res (list p03 * (N * N * N)).
 
-Definition proj03 (t : dterm) : p03 := (d_id t, d_allp t, d_genes t, d_omim t, d_orpha t, d_ic t).
+(* InformationContent::get_kind selects the field of that kind *)
+Definition proj03 (t : dterm) : p03 := (d_id t, d_allp t, d_genes t, d_omim t, d_orpha t, d_ic t, d_ic t).
 
 Definition run_C03 (i : winput) : obs_C03 :=
   let (w, tbl) := i in
@@ -41,6 +45,8 @@ Definition kind_ic_ok (tbl : list (N * N)) (ts : list p03) (c : N * N * N) (k : 
      | _ => false
      end
      && nonneg_finite (r_ic k t)
+     (* get_kind (kind) is the accessor of that kind *)
+     && (r_ick k t =? r_ic k t)
      (* 0 when n or N is 0 *)
      && (if (totalk k c =? 0) || (r_n k t =? 0) then r_ic k t =? 0 else true)
      (* never decreases from an ancestor to a descendant that carries an annotation *)
